@@ -232,6 +232,27 @@ func checkC03(c *Ctx) {
 		byType[l.ftype.Name()] = append(byType[l.ftype.Name()], l)
 	}
 	sw := findSwitchOn(addTo, ".Type")
+	recvName := "f"
+	if addTo.Recv != nil && len(addTo.Recv.List) == 1 && len(addTo.Recv.List[0].Names) == 1 {
+		recvName = addTo.Recv.List[0].Names[0].Name
+	}
+	if sw == nil {
+		// the switch may have been split off into an unexported helper of AddTo
+		if sfn := c.Method(CorePath, "Field", "AddTo"); sfn != nil {
+			for _, h := range Region(sfn) {
+				fd, ok := h.Syntax().(*ast.FuncDecl)
+				if !ok || h == sfn || fd.Body == nil {
+					continue
+				}
+				if s2 := findSwitchOn(fd, ".Type"); s2 != nil {
+					sw = s2
+					if fd.Recv != nil && len(fd.Recv.List) == 1 && len(fd.Recv.List[0].Names) == 1 {
+						recvName = fd.Recv.List[0].Names[0].Name
+					}
+				}
+			}
+		}
+	}
 	if sw == nil {
 		c.Und("R3.1", "zapcore.Field.AddTo", "switch", addTo.Pos(), "no switch on f.Type")
 		return
@@ -286,25 +307,38 @@ func checkC03(c *Ctx) {
 		read := map[string]bool{}
 		var asserts []types.Type
 		var encCalls []*ast.CallExpr
-		for _, st := range arm.clause.Body {
-			ast.Inspect(st, func(n ast.Node) bool {
-				switch x := n.(type) {
-				case *ast.SelectorExpr:
-					if id, ok := x.X.(*ast.Ident); ok && id.Name == "f" && x.Sel.Name != "Key" && x.Sel.Name != "Type" {
+		var scan func(nodes []ast.Stmt, rn string, depth int)
+		scan = func(nodes []ast.Stmt, rn string, depth int) {
+			for _, st := range nodes {
+				ast.Inspect(st, func(n ast.Node) bool {
+					switch x := n.(type) {
+					case *ast.SelectorExpr:
+						id, ok := x.X.(*ast.Ident)
+						if !ok || id.Name != rn || x.Sel.Name == "Key" || x.Sel.Name == "Type" {
+							break
+						}
+						// an unexported method of Field that unpacks on the arm's behalf: look into it
+						if mf, isFn := info.Uses[x.Sel].(*types.Func); isFn && depth < 3 {
+							if md, _ := c.DeclOf(CorePath, "Field", mf.Name()); md != nil && md.Body != nil && md.Recv != nil && len(md.Recv.List) == 1 && len(md.Recv.List[0].Names) == 1 {
+								scan(md.Body.List, md.Recv.List[0].Names[0].Name, depth+1)
+								break
+							}
+						}
 						read[x.Sel.Name] = true
+					case *ast.TypeAssertExpr:
+						if x.Type != nil {
+							asserts = append(asserts, info.TypeOf(x.Type))
+						}
+					case *ast.CallExpr:
+						if f := CalleeOf(info, x); f != nil {
+							encCalls = append(encCalls, x)
+						}
 					}
-				case *ast.TypeAssertExpr:
-					if x.Type != nil {
-						asserts = append(asserts, info.TypeOf(x.Type))
-					}
-				case *ast.CallExpr:
-					if f := CalleeOf(info, x); f != nil {
-						encCalls = append(encCalls, x)
-					}
-				}
-				return true
-			})
+					return true
+				})
+			}
 		}
+		scan(arm.clause.Body, recvName, 0)
 		for li, l := range byType[tn] {
 			cname := l.pk.PkgPath + "." + l.fd.Name.Name
 			slot := tn
@@ -492,7 +526,7 @@ func c3Bool(c *Ctx) {
 	c.Check(ok, "R3.1", fn.String(), "integer/BoolType", fn.Pos(), "true is packed as 1 and false as 0")
 	addTo := c.Method(CorePath, "Field", "AddTo")
 	okU := false
-	for _, cl := range Calls(addTo) {
+	for _, cl := range CallsDeep(addTo) {
 		if f := CalleeFunc(cl); f != nil && f.Name() == "AddBool" {
 			okU = Desc(Args(cl)[2]) == "(f.Integer == 1)"
 		}
@@ -598,6 +632,23 @@ func c3Any(c *Ctx) {
 		}
 		return true
 	})
+	if ts == nil {
+		// the switch may live in an unexported helper that Any delegates to
+		if sfn := c.Func(ZapPath, "Any"); sfn != nil {
+			for _, h := range Region(sfn) {
+				hd, ok := h.Syntax().(*ast.FuncDecl)
+				if !ok || h == sfn || hd.Body == nil {
+					continue
+				}
+				ast.Inspect(hd.Body, func(n ast.Node) bool {
+					if s, ok := n.(*ast.TypeSwitchStmt); ok && ts == nil {
+						ts = s
+					}
+					return true
+				})
+			}
+		}
+	}
 	if ts == nil {
 		c.Und("R3.3", "go.uber.org/zap.Any", "typeswitch", fd.Pos(), "no type switch")
 		return
@@ -925,7 +976,7 @@ func c3Time(c *Ctx) {
 	// AddTo rebuild
 	addTo := c.Method(CorePath, "Field", "AddTo")
 	nT := 0
-	for _, cl := range Calls(addTo) {
+	for _, cl := range CallsDeep(addTo) {
 		if f := CalleeFunc(cl); f != nil && f.Name() == "AddTime" {
 			for _, alt := range valueAlternatives(Args(cl)[2], cl.Block()) {
 				d := alt.desc
